@@ -103,6 +103,13 @@ func (svc *HTTPServiceExpr) CanonicalEndpoint() *HTTPEndpointExpr {
 // FullPaths computes the base paths to the service endpoints concatenating the
 // API and parent service base paths as needed.
 func (svc *HTTPServiceExpr) FullPaths() []string {
+	return svc.fullPaths(make(map[*HTTPServiceExpr]struct{}))
+}
+
+// fullPaths implements FullPaths, seen records the services whose paths are
+// being computed so that services that (invalidly) are each other's parent
+// do not cause an endless recursion: the validation reports the cycle.
+func (svc *HTTPServiceExpr) fullPaths(seen map[*HTTPServiceExpr]struct{}) []string {
 	if len(svc.Paths) == 0 {
 		return []string{path.Join(Root.API.HTTP.Path)}
 	}
@@ -113,13 +120,18 @@ func (svc *HTTPServiceExpr) FullPaths() []string {
 			continue
 		}
 		var basePaths []string
-		if p := svc.Parent(); p != nil {
+		seen[svc] = struct{}{}
+		parent := svc.Parent()
+		if _, cycle := seen[parent]; cycle {
+			parent = nil
+		}
+		if p := parent; p != nil {
 			if ca := p.CanonicalEndpoint(); ca != nil {
 				if routes := ca.Routes; len(routes) > 0 {
 					// Note: all these tests should be true at code
 					// generation time as DSL validation makes sure
 					// that parent services have a canonical path.
-					fullPaths := routes[0].FullPaths()
+					fullPaths := routes[0].fullPaths(seen)
 					basePaths = make([]string, len(fullPaths))
 					for i, p := range fullPaths {
 						basePaths[i] = path.Join(p)
